@@ -1657,25 +1657,15 @@ class Frame(ContainerOperand):
         fp = path_filter(fp)
         delimiter_native = '\t'
 
-        if delimiter != delimiter_native:
-            # this is necessary if there are quoted cells that include the delimiter
-            def file_like() -> tp.Iterator[str]:
-                if isinstance(fp, str):
-                    with open(fp, 'r') as f:
-                        for row in csv.reader(f, delimiter=delimiter, quotechar=quote_char):
-                            yield delimiter_native.join(row)
-                else: # handling file like object works for stringio but not for bytesio
-                    for row in csv.reader(fp, delimiter=delimiter, quotechar=quote_char):
+        # this is necessary if there are quoted cells that include the delimiter or the quote character (also when tab-delimited)
+        def file_like() -> tp.Iterator[str]:
+            if isinstance(fp, str):
+                with open(fp, 'r') as f:
+                    for row in csv.reader(f, delimiter=delimiter, quotechar=quote_char):
                         yield delimiter_native.join(row)
-        else:
-            def file_like() -> tp.Iterator[str]: # = fp
-                if isinstance(fp, str):
-                    with open(fp, 'r') as f:
-                        for row in f:
-                            yield row
-                else: # iterable of string lines, StringIO
-                    for row in fp:
-                        yield row
+            else: # handling file like object works for stringio but not for bytesio
+                for row in csv.reader(fp, delimiter=delimiter, quotechar=quote_char):
+                    yield delimiter_native.join(row)
 
         # always accumulate columns rows, as np.genfromtxt will mutate the headers: adding enderscore, removing invalid characters, etc.
         apex_rows = []
